@@ -180,7 +180,7 @@ def quic_noresp_expected : String := "msg, dns.RcodeServerFailure"
 theorem quic_noresp_src : quic_noresp = quic_noresp_expected := by decide
 
 /-- DNSCrypt: the handler's response if one was written … -/
-def dnscrypt_if_conds_expected : String := "written"
+def dnscrypt_if_conds_expected : String := "written | opt != nil && network == NetworkUDP"
 theorem dnscrypt_if_conds_src : dnscrypt_if_conds = dnscrypt_if_conds_expected := by decide
 
 /-- … SERVFAIL otherwise. -/
